@@ -158,6 +158,7 @@ type Exec struct {
 	unsatMemo map[uint32]*PCNode
 	symAddr bool
 	cur *State
+	deadline time.Time
 	inAtomic bool
 	cvc5Time time.Duration
 	unresolved int
@@ -882,6 +883,11 @@ func (ex *Exec) Explore(st0 *State, fn *ssa.Function, args []Value) {
 			ex.work = nil
 			break
 		}
+		if !ex.deadline.IsZero() && time.Now().After(ex.deadline) && len(ex.work) > 0 {
+			ex.noteEnd("truncated", fmt.Sprintf("time budget of the work unit exhausted with %d states pending", len(ex.work)))
+			ex.stats.Paths["truncated"] += len(ex.work)
+			ex.work = nil
+		}
 		if npaths >= ex.maxPaths {
 			ex.noteEnd("truncated", fmt.Sprintf("path budget %d exhausted with %d states pending", ex.maxPaths, len(ex.work)))
 			ex.stats.Paths["truncated"] += len(ex.work)
@@ -938,6 +944,9 @@ func (ex *Exec) runPath(st *State) (end pathEnd) {
 		ex.stats.Instrs++
 		if st.steps > ex.maxSteps {
 			return pathEnd{"truncated", "instruction budget (possible non-termination)"}
+		}
+		if st.steps&255 == 0 && !ex.deadline.IsZero() && time.Now().After(ex.deadline) {
+			return pathEnd{"truncated", "time budget of the work unit exhausted"}
 		}
 		if ex.trace {
 			fmt.Printf("  [%d] %s: %s\n", len(st.frames), fr.fn.Name(), in)
